@@ -8,6 +8,8 @@ CONSTANTS
     ColSets = {{"k"}}
     Kinds = {"time_course"}
     FailModes = {"intfail"}
+    LabelSchemes = {"shuffled"}
+    KeyedByLabel = FALSE
     NameSchemes = {"plain"}
     Y0s = {0}
     Y0Again = FALSE
